@@ -374,7 +374,7 @@ def oracle(case, init, steps):
                         exp[j] = '0'
                 if ''.join(exp) != ca:
                     fails.append(('occupancy_not_union', f"request {r['id']}: OMS {i} occupancy != before + accepted ranges"))
-                if af[6] != nch + nb_wl or af[7] != svc + [f"r{r['id']}"]:
+                if af[6] != nch + nb_wl or af[7] != svc + [r.get('sid', f"r{r['id']}")]:
                     fails.append(('service_record', f"request {r['id']}: OMS {i} service bookkeeping"))
             else:
                 if b4 != af:
@@ -397,21 +397,145 @@ def oracle(case, init, steps):
 # ------------------------------------------------------------------ model side
 def shrink(case, key):
     """greedy minimisation of a failing history: drop requests while the oracle still reports `key`"""
+    field = 'json_requests' if case.get('kind') == 'planning' else 'requests'
+
     def fails(c):
         try:
-            init, steps = drive(c)
+            if c.get('kind') == 'planning':
+                init, steps, _ = drive_planning(c)
+                if init is None:
+                    return False
+            else:
+                init, steps = drive(c)
             return any(k == key for k, _ in oracle(c, init, steps))
         except Exception:
             return False
     cur = {k: v for k, v in case.items() if not k.startswith('_')}
     changed = True
-    while changed and len(cur['requests']) > 1:
+    while changed and len(cur[field]) > 1:
         changed = False
-        for i in range(len(cur['requests']) - 1, -1, -1):
-            cand = dict(cur, requests=cur['requests'][:i] + cur['requests'][i + 1:])
-            if cand['requests'] and fails(cand):
+        for i in range(len(cur[field]) - 1, -1, -1):
+            cand = dict(cur, **{field: cur[field][:i] + cur[field][i + 1:]})
+            if cand[field] and fails(cand):
                 cur, changed = cand, True
     return cur
+
+
+# ---- planning level: the whole gnpy pipeline (requests_from_json, path computation, propagation, spectrum
+#      assignment) on a designed network; pth_assign_spectrum is wrapped so that its own loop is observed request
+#      by request (the wrapper calls the original once per request in the original order - same semantics)
+def gen_planning_case(rng):
+    n = rng.randint(3, 5)
+    topo, names = rand_topo(rng, n, rng.randint(0, 2))
+    reqs = []
+    for i in range(rng.randint(3, 14)):
+        a, b = rng.sample(names, 2)
+        mode = rng.choice(['mode 1', 'mode 1', 'mode 2', 'mode 4', None])
+        # validity-aware: spacing at or above the mode's min_spacing (mode 1: 37.5 GHz, modes 2/4: 75 GHz); a small
+        # malformed share keeps the refusal path exercised
+        lo = {'mode 1': 37.5e9, 'mode 2': 75e9, 'mode 4': 75e9, None: 37.5e9}[mode]
+        spacing = rng.choice([sp for sp in (37.5e9, 50e9, 50e9, 62.5e9, 75e9, 100e9) if sp >= lo or rng.random() < 0.02])
+        pcm = ceil(spacing / 12.5e9)
+        nslots = rng.choice([1, 1, 1, 2, 3])
+        slots = []
+        for _ in range(nslots):
+            mm = rng.choice([None, None, pcm * rng.choice([1, 2, 4, 8, 16])])
+            half = mm if mm is not None else pcm
+            nn = rng.choice([None, None, rng.randint(-284 + half, 476 - half + 1), rng.randint(-300, 500)])
+            slots.append({'N': nn, 'M': mm})
+        bit_rate = {'mode 1': 100e9, 'mode 2': 400e9, 'mode 4': 200e9, None: 100e9}[mode]
+        bw = rng.choice([100e9, 200e9, 400e9, 800e9, 1600e9, 3000e9])
+        if mode is not None and all(sl['M'] is not None for sl in slots) and rng.random() < 0.9:
+            have = sum(sl['M'] // pcm for sl in slots)
+            bw = min(bw, max(1, have) * bit_rate)
+        reqs.append({'request-id': str(i + 1), 'source': f'trx {a}', 'destination': f'trx {b}',
+                     'src-tp-id': f'trx {a}', 'dst-tp-id': f'trx {b}', 'bidirectional': rng.random() < 0.5,
+                     'path-constraints': {'te-bandwidth': {
+                         'technology': 'flexi-grid', 'trx_type': 'Voyager', 'trx_mode': mode,
+                         'effective-freq-slot': slots, 'spacing': spacing,
+                         'max-nb-of-channel': None, 'output-power': None,
+                         'path_bandwidth': bw}}})
+    return {'kind': 'planning', 'policy': 'first_fit', 'gb': 4, 'topology': topo, 'json_requests': reqs, 'requests': []}
+
+
+def drive_planning(case):
+    """returns (init, steps) like drive(); case['requests'] is filled with what pth_assign_spectrum was given"""
+    import copy as _copy
+    import gnpy.tools.worker_utils as wu
+    import gnpy.topology.spectrum_assignment as sa
+    from gnpy.tools.json_io import network_from_json
+    from gnpy.tools.worker_utils import designed_network, planning
+    from gnpy.core.elements import Roadm, Transceiver
+    from gnpy.core.exceptions import ServiceError, DisjunctionError
+    eq = equipment()
+    net = network_from_json(_copy.deepcopy(case['topology']), eq)
+    net, _, _ = designed_network(eq, net)
+    steps, box = [], {}
+    orig = wu.pth_assign_spectrum
+    orig_bp = sa.build_path_oms_id_list
+
+    def wrapped(pths, rqs, oms_list, rpths, policy='first_fit'):
+        box['init'] = raw(oms_list)
+        box['ids'] = {rq.request_id: k + 1 for k, rq in enumerate(rqs)}
+        for k, (pth, rq, rpth) in enumerate(zip(pths, rqs, rpths)):
+            pre = hasattr(rq, 'blocking_reason')
+            own, errs = [], []
+            for el in list(pth) + list(rpth):
+                if not isinstance(el, (Roadm, Transceiver)):
+                    o = [om.oms_id for om in oms_list if el.uid in om.el_id_list[1:-1]]
+                    if len(o) != 1:
+                        errs.append(f'{el.uid} in OMS {o}')
+                    own += o[:1]
+            r = {'id': k + 1, 'sid': rq.request_id, 'pre_blocked': pre,
+                 'bw': rq.path_bandwidth if not pre else 0, 'sp': rq.spacing if not pre else 0,
+                 'br': rq.bit_rate if not pre else 0,
+                 'N': list(rq.N) if rq.N is not None else [None], 'M': list(rq.M) if rq.M is not None else [None],
+                 'pth': own, 'rpth': [], '_own_errors': errs}
+            if not pre and (r['br'] is None or r['bw'] is None):
+                r['pre_blocked'], r['bw'], r['sp'], r['br'] = True, 0, 0, 0     # never reached for unblocked requests
+            before = raw(oms_list)
+            captured = []
+
+            def bp(p, captured=captured):
+                res = orig_bp(p)
+                captured.append(list(res))
+                return res
+            sa.build_path_oms_id_list = bp
+            rec = {'rq': r, 'before': before}
+            try:
+                orig([pth], [rq], oms_list, [rpth], policy=policy)
+            except Exception as e:
+                rec.update(out=f'E:{type(e).__name__}', exc=f'{type(e).__name__}: {e}',
+                           path_oms=captured[0] if captured else sorted(set(own)), after=raw(oms_list))
+                steps.append(rec)
+                raise
+            finally:
+                sa.build_path_oms_id_list = orig_bp
+            rec['path_oms'] = captured[0] if captured else sorted(set(own))
+            rec['after'] = raw(oms_list)
+            if pre:
+                rec['out'] = 'S'
+            elif rq.N is None:
+                rec['out'] = f'B:{rq.blocking_reason}'
+            else:
+                rec['out'] = 'A[' + ','.join(map(str, rq.N)) + '][' + ','.join(map(str, rq.M)) + ']'
+                rec['N'], rec['M'] = list(rq.N), list(rq.M)
+            rec['state'] = '/'.join(
+                ','.join([str(o.spectrum_bitmap.n_min), str(o.spectrum_bitmap.n_max), str(o.spectrum_bitmap.freq_index_min),
+                          str(o.spectrum_bitmap.freq_index_max), rle(cells_str(o.spectrum_bitmap.bitmap)),
+                          str(o.nb_channels), '[' + ','.join(str(box['ids'][s_]) for s_ in o.service_list) + ']'])
+                for o in oms_list)
+            steps.append(rec)
+    wu.pth_assign_spectrum = wrapped
+    try:
+        planning(net, eq, {'path-request': _copy.deepcopy(case['json_requests'])})
+    except (ServiceError, DisjunctionError) as e:
+        box['refused'] = f'{type(e).__name__}'
+    finally:
+        wu.pth_assign_spectrum = orig
+        sa.build_path_oms_id_list = orig_bp
+    case['requests'] = [s_['rq'] for s_ in steps]
+    return box.get('init'), steps, box.get('refused')
 
 
 def coq_term(case, init, steps):
@@ -487,9 +611,16 @@ def run(ctx):
         nbig = ctx.scale(12, 150)
         cases += [gen_case(rng) for _ in range(n)] + [gen_case(rng, big=True) for _ in range(nbig)]
         cases += [gen_network_case(rng) for _ in range(ctx.scale(10, 120))]
+        cases += [gen_planning_case(rng) for _ in range(ctx.scale(8, 100))]
     terms, meta = [], []
     for c in cases:
-        init, steps = drive(c)
+        if c.get('kind') == 'planning':
+            init, steps, refused = drive_planning(c)
+            if init is None:
+                ctx.count('planning_refused_at_load')
+                continue
+        else:
+            init, steps = drive(c)
         if not well_formed_init(init):
             ctx.count('skipped_illformed_init')
             continue
@@ -502,7 +633,7 @@ def run(ctx):
             if s['out'].startswith('B:'):
                 ctx.count('reason_' + s['out'][2:])
         ctx.count('requests', len(steps))
-        ctx.count('cases_network' if c.get('kind') == 'network' else 'cases_synthetic')
+        ctx.count({'network': 'cases_network', 'planning': 'cases_planning'}.get(c.get('kind'), 'cases_synthetic'))
         ctx.count('oms_total', len(init))
         seen_keys = set()
         for key, desc in oracle(c, init, steps):
